@@ -94,6 +94,7 @@ type resT struct {
 	Trials      int              `json:"trials,omitempty"`
 	Procs       int              `json:"procs,omitempty"`
 	Reports     int              `json:"reports,omitempty"`
+	WallMs      int64            `json:"wall_ms,omitempty"`
 }
 
 func (r *resT) add(drift bool, sig map[string]any, detail map[string]any) {
@@ -151,6 +152,8 @@ func argClass(c callT) string {
 		return "limits_given"
 	case c.Tok == "nrand":
 		return "limits_left_out"
+	case c.Tok == "str_over" || c.Tok == "list_over":
+		return "out_of_range"
 	}
 	return c.Tok
 }
@@ -206,8 +209,12 @@ func runHist(c caseT) (r resT) {
 	}
 	hist := []string{}
 	prev := base
+	family := in.kind
+	if family == "units0" {
+		family = "units" // unit definitions with and without multipliers share the parser
+	}
 	sigBase := func(c callT, div string) map[string]any {
-		return map[string]any{"kind": in.kind, "op": c.Op, "arg_class": argClass(c), "divergence": div}
+		return map[string]any{"kind": family, "op": c.Op, "arg_class": argClass(c), "divergence": div}
 	}
 	// divergences of the schema's state are keyed by what the call does, not by the exact argument
 	sigState := func(c callT, div string) map[string]any {
@@ -222,7 +229,7 @@ func runHist(c caseT) (r resT) {
 				cls = "complete"
 			}
 		}
-		return map[string]any{"kind": in.kind, "op": c.Op, "arg_class": cls, "divergence": div}
+		return map[string]any{"kind": family, "op": c.Op, "arg_class": cls, "divergence": div}
 	}
 	for ci, call := range c.Calls {
 		hist = append(hist, call.Op+":"+call.Tok)
@@ -335,8 +342,11 @@ func clip(s string) string {
 // ---------------------------------------------------------------------------- C12: random histories (code -> spec)
 
 var opTable = map[string][][2]string{
-	"units":     {{"unser", "str_ok"}, {"unser", "str_bad"}, {"unser", "num"}, {"fmt", "num"}, {"ser", "num"}},
-	"units0":    {{"unser", "str_ok"}, {"unser", "str_bad"}, {"unser", "num"}, {"fmt", "num"}, {"ser", "num"}},
+	"units": {{"unser", "str_ok"}, {"unser", "str_bad"}, {"unser", "num"}, {"fmt", "num"}, {"ser", "num"},
+		{"unser", "str_over"}, {"unser", "list_over"}},
+	"units0": {{"unser", "str_ok"}, {"unser", "str_bad"}, {"unser", "num"}, {"fmt", "num"}, {"ser", "num"},
+		{"unser", "str_over"}, {"unser", "list_over"}},
+	"disabled":  {{"unser", "uses_disabled"}, {"compat", "uses_disabled"}, {"unser", "keeps"}},
 	"objmap":    {{"unser", "rand"}, {"unser", "rand"}, {"unser", "bad"}, {"valid", "rand"}, {"ser", "rand"}},
 	"objstruct": {{"unser", "rand"}, {"unser", "rand"}, {"unser", "rand"}, {"unser", "bad"}, {"ser", "full"}, {"valid", "full"}},
 	"mapcoll":   {{"unser", "collide"}, {"unser", "single"}, {"unser", "bad"}},
@@ -539,6 +549,8 @@ type oneshotOut struct {
 
 func runRace(c caseT, raw json.RawMessage) (r resT) {
 	r.RaceEnabled = raceEnabled
+	t0 := time.Now()
+	defer func() { r.WallMs = time.Since(t0).Milliseconds() }()
 	if c.Procs < 1 {
 		c.Procs = 1
 	}
